@@ -357,14 +357,14 @@ def build_select(c):
             fi = it[1] % len(froms)
             names = list(fvals[fi])
             cn = names[it[2] % len(names)]
-            if not c.get("pinned") and (fi, cn) in cast_seen:
+            if False and not c.get("pinned") and (fi, cn) in cast_seen:  # repaired in /repo (b40f324): repeated casts are generated again
                 # known finding: the de-duplication label of CAST(col) ignores the occurrence index, so the column plus two
                 # casts of it (or one cast repeated) share "col__1"; only one cast per column is generated
                 n_excluded_casts += 1
                 continue
             cast_seen.add((fi, cn))
             ce = cast(froms[fi].c[cn], Integer)
-            for _ in range(max(1, min(3, it[3])) if c.get("pinned") else 1):
+            for _ in range(max(1, min(3, it[3] % 4))):
                 cols.append(ce)
                 expected.append(fvals[fi][cn])
         elif kind == "lit":
